@@ -440,8 +440,25 @@ func c07Progress(run *vfRun, m *c07Mon, ns []*c13Node, target uint64, maxPeriods
 		run.Inconclusive(fmt.Sprintf("case %d: %s: chain moves (%d -> %d) but did not reach round %d in %d periods + 90 s", m.p.CaseIndex, what, before, after, target, maxPeriods))
 		return false
 	}
-	run.Violation(sig, fmt.Sprintf("%s: the chain stays at round %d (clock round %d); %d periods and a further 90 s of real time passed without any new round\n%s",
-		what, after, m.nt.clockRound(), maxPeriods, dump), m.ci(map[string]any{"head": after, "target": target}))
+	// a halt caused by members that ended the DKG with different transition times (each node derives it from its own
+	// clock at completion: the known C06 defect, which needs completion skew, e.g. an overloaded machine) is named as such
+	disagree := ""
+	seen := map[int64][]int{}
+	for _, n := range ns {
+		if bp := n.curBP(); bp != nil {
+			bp.state.RLock()
+			if bp.group != nil {
+				seen[bp.group.TransitionTime] = append(seen[bp.group.TransitionTime], n.idx)
+			}
+			bp.state.RUnlock()
+		}
+	}
+	if len(seen) > 1 {
+		disagree = fmt.Sprintf("members hold groups with different transition times %v; ", seen)
+		sig = strings.Replace(sig, "C07/halted-after-transition/", "C07/halted-after-transition/transition-time-disagrees/", 1)
+	}
+	run.Violation(sig, fmt.Sprintf("%s: %sthe chain stays at round %d (clock round %d); %d periods and a further 90 s of real time passed without any new round\n%s",
+		what, disagree, after, m.nt.clockRound(), maxPeriods, dump), m.ci(map[string]any{"head": after, "target": target}))
 	return false
 }
 
